@@ -135,6 +135,13 @@ class H5Group:
             # convert before the dataset is created or resized: values that
             # cannot be stored must leave the file as it is
             data = np.ascontiguousarray(data, dtype=dtype)
+        elif dtype is not None and np.dtype(dtype).kind in "OUS":
+            # text: h5py refuses a string with an embedded NUL only when it
+            # writes, i.e. after the dataset has been created or resized
+            for val in np.ravel(np.asarray(data, dtype=object)):
+                if isinstance(val, str) and "\x00" in val:
+                    raise ValueError("Text values must not contain NUL "
+                                     "characters")
         shape = np.shape(data)
         if self.has_data(name):
             dset = self.get_dataset(name)
